@@ -14,10 +14,11 @@ Definition numkcfg (c : config) (crit : criterion) (k : cleanup) : Prop :=
   c_rot c = Some (crit, NNumbers, k) /\ fts (c_spec c) = false /\ c_symlink c = false /\ c_async c = false
   /\ c_bg c = false.
 
-(* side conditions, needed only when there is a cleanup: the suffix is not (and does not end with .)gz, and all
-   indices have five digits *)
+(* side condition, needed only when there is a cleanup: the suffix is not (and does not end with .)gz.  There is no
+   condition on the number L of closed files any more (the listing is ordered by the NUMBER of the infix); the argument is
+   kept for the statements that mention it *)
 Definition kside (c : config) (k : cleanup) (L : nat) : Prop :=
-  match klim k with None => True | Some _ => sfx_ok (c_spec c) /\ (N.of_nat L <= 100000)%N end.
+  match klim k with None => True | Some _ => sfx_ok (c_spec c) end.
 
 (* with L closed files: the archives are lo <= i < mid, the plain files mid <= i < L *)
 Definition k_lo (k : cleanup) (L : nat) : nat := match klim k with None => 0 | Some (n, m) => L - (n + m) end.
@@ -34,7 +35,7 @@ Proof. unfold k_lo. destruct (klim k) as [[n m]|]; reflexivity. Qed.
 Lemma k_mid_0 k : k_mid k 0 = 0.
 Proof. unfold k_mid. destruct (klim k) as [[n m]|]; reflexivity. Qed.
 Lemma kside_le c k L L' : L <= L' -> kside c k L' -> kside c k L.
-Proof. unfold kside. destruct (klim k); [|auto]. intros H [A B]. split; [exact A | lia]. Qed.
+Proof. intros _ H. exact H. Qed.
 
 Lemma gname_ne_rname c i j : gname c i <> rname c j.
 Proof.
@@ -76,8 +77,8 @@ Lemma cleanup_k c crit k w wr closed lo mid :
 Proof.
   intros (Hrot & Hts & Hlink & Has & Hbg) Hside I. pose proof I as [Q W Hc Hcp KD Hwr Hcap].
   unfold kside, knew_lo, knew_mid in *. destruct (klim k) as [[n m]|] eqn:Ek.
-  - destruct Hside as [Hsfx HL].
-    destruct (cleanup_numbers c w k n m closed lo mid Hts Hsfx HL Ek Q W KD) as (w' & E & S & W' & KD' & SC).
+  - pose proof Hside as Hsfx.
+    destruct (cleanup_numbers c w k n m closed lo mid Hts Hsfx Ek Q W KD) as (w' & E & S & W' & KD' & SC).
     destruct (same_at_content _ _ _ _ SC Hc) as [Lc' Ic'].
     exists w'. split; [exact E|]. split; [exact S|]. split.
     + constructor; auto; [apply S | rewrite Ic'; exact Hcp].
